@@ -506,6 +506,9 @@ def merge(c, a, b, ctx=None):
     if ta is Adt:
         if a.ty != b.ty:
             _unm(a, b)
+        if a.ty == 'PeekState' and set(a.alts) != set(b.alts):
+            # concrete control state of an iterator model ("peeked" / "not peeked"): keep such paths apart
+            raise Unmergeable()
         alts = {}
         for v in set(a.alts) | set(b.alts):
             ia = a.alts.get(v)
